@@ -1,4 +1,5 @@
 import Irismod.Props.C15
+import Irismod.Proofs.MtMonitor
 open Irismod Irismod.Mt Irismod.Props.C15
 #print axioms inv_init
 #print axioms inv_step
@@ -12,5 +13,7 @@ open Irismod Irismod.Mt Irismod.Props.C15
 #print axioms rejected_unchanged
 #print axioms denom_id_scheme
 #print axioms seqs_monotone
+-- the executable monitor (Spec.C15.stepOk, evaluated on the implementation's trace) is sound w.r.t. the model
+#print axioms Irismod.Proofs.MtMonitor.monitor_sound
 -- non-vacuity: the demo history reaches a state with a positive balance that can be transferred and burnt
 #eval s!"nonvacuous {(step demo (.transfer "A2" "A1" (genId "mt-denom-" 1) (genId "mt-" 1) 1)).isOk && (step demo (.burn "A1" (genId "mt-denom-" 1) (genId "mt-" 1) 6)).isOk && (balOf demo "A1" (genId "mt-denom-" 1) (genId "mt-" 1) == 6)}"
